@@ -331,35 +331,7 @@ func c18Deterministic(c *Ctx) {
 			al, _ := nonceArg.(*ssa.Alloc)
 			good := false
 			if al != nil && msgP != nil && keyP != nil && an.SameValue(sealed, msgP) {
-				for _, r := range *al.Referrers() {
-					sl, ok := r.(*ssa.Slice)
-					if !ok {
-						continue
-					}
-					for _, rr := range *sl.Referrers() {
-						cp, ok := rr.(*ssa.Call)
-						if !ok {
-							continue
-						}
-						bi, ok := cp.Call.Value.(*ssa.Builtin)
-						if !ok || bi.Name() != "copy" || cp.Call.Args[0] != ssa.Value(sl) {
-							continue
-						}
-						src := cp.Call.Args[1]
-						if an.DependsOn(src, func(v ssa.Value) bool {
-							nc, ok := v.(*ssa.Call)
-							if !ok || nc.Call.StaticCallee() != nonceFn {
-								return false
-							}
-							a := nc.Call.Args[0]
-							dm := an.DependsOn(a, func(w ssa.Value) bool { return w == msgP })
-							dk := an.DependsOn(a, func(w ssa.Value) bool { return w == keyP })
-							return dm && dk
-						}) {
-							good = true
-						}
-					}
-				}
+				good = nonceAllocFrom(al, msgP, keyP, nonceFn, 0)
 			}
 			c.R.Cond(good, rule, core.FuncName(sf)+": nonce derived from message and key", c.P.Pos(call.Pos()),
 				"the nonce passed to secretbox.Seal is copied from nonce(message || key), computed in the sealing function from its own message and key", "the nonce passed to secretbox.Seal is not computed, in the sealing function, from the message that is sealed and the key (e.g. it is hashed from a buffer handed in from outside): equal plaintext can get different nonces and different plaintexts the same nonce")
@@ -368,6 +340,94 @@ func c18Deterministic(c *Ctx) {
 	if nSeal == 0 {
 		c.R.Bad(rule, core.FuncName(enc)+": seals", c.P.Pos(enc.Pos()), "no secretbox.Seal reachable from encrypt")
 	}
+}
+
+// nonceAllocFrom: the array al is filled by copy(al[:], nonce(f(msg, key))…), or is the result of a
+// same-package helper called with msg and key whose returned array is filled that way.
+func nonceAllocFrom(al *ssa.Alloc, msgP, keyP ssa.Value, nonceFn *ssa.Function, depth int) bool {
+	if depth > 2 || al.Referrers() == nil {
+		return false
+	}
+	for _, r := range *al.Referrers() {
+		switch x := r.(type) {
+		case *ssa.Slice:
+			for _, rr := range *x.Referrers() {
+				cp, ok := rr.(*ssa.Call)
+				if !ok {
+					continue
+				}
+				bi, ok := cp.Call.Value.(*ssa.Builtin)
+				if !ok || bi.Name() != "copy" || cp.Call.Args[0] != ssa.Value(x) {
+					continue
+				}
+				src := cp.Call.Args[1]
+				if an.DependsOn(src, func(v ssa.Value) bool {
+					nc, ok := v.(*ssa.Call)
+					if !ok || nc.Call.StaticCallee() != nonceFn {
+						return false
+					}
+					a := nc.Call.Args[0]
+					dm := an.DependsOn(a, func(w ssa.Value) bool { return w == msgP })
+					dk := an.DependsOn(a, func(w ssa.Value) bool { return w == keyP })
+					return dm && dk
+				}) {
+					return true
+				}
+			}
+		case *ssa.Store:
+			if x.Addr != ssa.Value(al) {
+				continue
+			}
+			var cl *ssa.Call
+			switch v := x.Val.(type) {
+			case *ssa.Call:
+				cl = v
+			case *ssa.Extract:
+				cl, _ = v.Tuple.(*ssa.Call)
+			}
+			if cl == nil {
+				continue
+			}
+			h := cl.Call.StaticCallee()
+			if h == nil || an.PkgPathOf(h) != kvPkg || len(h.Blocks) == 0 {
+				continue
+			}
+			var hm, hk ssa.Value
+			for i, a := range cl.Call.Args {
+				if i >= len(h.Params) {
+					break
+				}
+				if an.SameValue(a, msgP) {
+					hm = h.Params[i]
+				}
+				if an.SameValue(a, keyP) {
+					hk = h.Params[i]
+				}
+			}
+			if hm == nil || hk == nil {
+				continue
+			}
+			ok := false
+			for _, b := range h.Blocks {
+				ret, isRet := b.Instrs[len(b.Instrs)-1].(*ssa.Return)
+				if !isRet || !an.IsNilConst(an.RetErr(ret)) {
+					continue
+				}
+				rv := an.RetVal(ret, 0)
+				if ld, isLd := rv.(*ssa.UnOp); isLd && ld.Op == token.MUL {
+					if al2, isAl := ld.X.(*ssa.Alloc); isAl && nonceAllocFrom(al2, hm, hk, nonceFn, depth+1) {
+						ok = true
+						continue
+					}
+				}
+				return false
+			}
+			if ok {
+				return true
+			}
+		}
+	}
+	return false
 }
 
 // ---- C18.stateless: encryptors are called concurrently (mast stores up to 40 nodes in parallel) ----
